@@ -268,10 +268,54 @@ def attemptBound (F : Facts) (dialT : Nat) : Kind → Option Nat
   | .refused => some dialT
   | _ => F.deadline.map (dialT + ·)
 
+/-! ### stall points: WHERE in the handshake an upstream goes silent
+
+`NewClientConnection` arms one deadline before the first request and takes it off in its deferred closure, i.e.
+after `upgrade` — and with it `startTls` / `tls.Conn.Handshake` — has returned.  `deadlineSpansHandshake` is that
+statement about the source, computed from the regenerated list of every deadline call of client.go with its
+placement and from the call chain of the phases; the bound of an attempt towards a peer that stalls at a given
+point is the deadline only while the deadline is still in force at that point. -/
+
+inductive StallPt
+  | start          -- never answers at all (`S`)
+  | afterHello     -- answers the first request (200 + capabilities), then silence (`A`)
+  | startTls       -- answers 200 and 101, then silence: the client is inside tls.Conn.Handshake (`L`)
+  | tlsRecord      -- … and a TLS record cut short (`K`)
+  deriving DecidableEq, Repr
+
+/-- the deadline calls of client.go the model was written against -/
+def expectedDeadlineSites : List (String × String × String × String) := [
+  ("NewClientConnection", "SetDeadline", "time.Now().Add(HandshakeTimeout)", "after"),
+  ("NewClientConnection", "SetDeadline", "time.Time{}", "deferred !(err!=nil)")]
+
+/-- … and who runs which phase: the StartTLS handshake runs inside `upgrade`, inside `NewClientConnection` -/
+def expectedHandshakeChain : List (String × String) := [
+  ("NewClientConnection", "connection.handshake"),
+  ("NewClientConnection", "connection.upgrade"),
+  ("ClientConnection.upgrade", "cc.startTls"),
+  ("ClientConnection.startTls", "tlsConn.Handshake")]
+
+/-- the deadline armed before the first request is still in force during the upgrade exchange and the
+    StartTLS handshake: it is set once, before every phase, cleared only when `NewClientConnection` returns
+    without error, and all phases run inside `NewClientConnection` -/
+def deadlineSpansHandshake (sites : List (String × String × String × String)) (chain : List (String × String)) : Bool :=
+  sites == expectedDeadlineSites && chain == expectedHandshakeChain
+
+/-- worst-case duration of a dial attempt towards a peer that stalls at `p`; `spans = false`: the deadline does
+    not reach beyond the text handshake -/
+def stallBound (F : Facts) (spans : Bool) (dialT : Nat) : StallPt → Option Nat
+  | .start | .afterHello => F.deadline.map (dialT + ·)
+  | .startTls | .tlsRecord => if spans then F.deadline.map (dialT + ·) else none
+
 /-! ### line protocol: `policy <mustSecure> <forward> <upstreams> <history>` (see go/harness/c16_policy.go) -/
 
 def kindOfChar : Char → Option Kind
   | 'R' => some .refused | 'S' => some .silent | 'H' => some .hsError | 'P' => some .okPlain | 'T' => some .okSecure
+  | 'Q' => some .okSecure                     -- plain carrier, the server offers StartTLS: the client upgrades
+  -- a peer that answers correctly up to a later point of the handshake and then goes silent is a silent
+  -- upstream whatever the point (`StallPt`): A after the first response, L inside the StartTLS handshake,
+  -- K inside a TLS record
+  | 'A' => some .silent | 'L' => some .silent | 'K' => some .silent
   | _ => none
 
 def scriptOf (s : String) : Option (Kind × Kind) :=
@@ -377,6 +421,7 @@ def handlePolnetWith (F : Facts) (toks : List String) : String :=
     let kind : Option (Kind × Bool) := match bad with
       | "refused" => some (.refused, false) | "garbage" => some (.hsError, false)
       | "silent" => some (.silent, false) | "silenttls" => some (.silent, false)
+      | "stalltls" => some (.silent, false) | "silentws" => some (.silent, false)
       | "insecure" => some (.okPlain, true) | _ => none
     match secureCarrier carrier, kind with
     | some sec, some (k, ms) =>
